@@ -74,7 +74,7 @@ def run(ctx):
         "not covered: FASTLY_CONTROL / pragma tokens, falco-ignore directives (C12), @plugin annotations, tester metadata comments, remote snippets, the hash director (cannot be selected in the simulator today)",
     ]
     g = DG.DecorGen(rng)
-    n_prog = 3000 if thorough else 200
+    n_prog = 3000 if thorough else 130
     n_var = 56 if thorough else 28
     cases = []      # (label, base source, [(style, variant source)])
     for label, base, vs in corpus_cases():
